@@ -92,6 +92,53 @@ theorem withTable_withTable (s : St) (t1 t2 : Table) (h : t1.name = t2.name) :
   unfold St.withTable
   simp only [setTable_setTable _ _ _ h]
 
+theorem map_setTable_self (ts : List Table) (t : Table) (h : ts.find? (·.name == t.name) = some t)
+    (hu : (ts.map (·.name)).Nodup) : ts.map (fun x => if x.name == t.name then t else x) = ts := by
+  induction ts with
+  | nil => rfl
+  | cons x xs ih =>
+    rw [List.find?_cons] at h
+    simp only [List.map_cons, List.nodup_cons] at hu ⊢
+    cases hx : (x.name == t.name) with
+    | true =>
+      rw [hx] at h
+      cases h
+      -- no other table has this name
+      have : xs.map (fun y => if y.name == t.name then t else y) = xs := by
+        conv => rhs; rw [← List.map_id xs]
+        apply List.map_congr_left
+        intro y hy
+        have : (y.name == t.name) = false := by
+          cases hyn : (y.name == t.name) with
+          | false => rfl
+          | true =>
+            exfalso
+            have e : y.name = t.name := by simpa using hyn
+            exact hu.1 (by rw [← e]; exact List.mem_map_of_mem hy)
+        simp [this]
+      rw [this]
+      simp
+    | false =>
+      rw [hx] at h
+      simp only [Bool.false_eq_true, if_false]
+      rw [ih h hu.2]
+
+theorem withTable_self (s : St) (t : Table) (h : s.w.table? t.name = some t) (hu : (s.w.tables.map (·.name)).Nodup) :
+    s.withTable t = s := by
+  unfold St.withTable World.setTable
+  unfold World.table? at h
+  rw [map_setTable_self _ _ h hu]
+
+theorem names_setTable (w : World) (t : Table) : (w.setTable t).tables.map (·.name) = w.tables.map (·.name) := by
+  unfold World.setTable
+  simp only [List.map_map]
+  apply List.map_congr_left
+  intro x _
+  simp only [Function.comp]
+  cases h : (x.name == t.name) with
+  | true => simp [h]; exact (by simpa using h : x.name = t.name).symm
+  | false => simp [h]
+
 theorem exec_getTable {s : St} {full : String} {t : Table} (h : s.w.table? full = some t) :
     (getTable full).exec s = (.ok t, s) := by
   simp [getTable, exec_bind, h]
@@ -125,6 +172,14 @@ theorem exec_lockVersion {s : St} {full : String} {t : Table} (h : s.w.table? fu
       (.ok (), s.withTable { t with rows := t.rows.map (lockRow (latestView s.w s.xid) s.xid s.cid rid) }) := by
   simp only [lockVersion, exec_bind, exec_get, exec_getTable h, exec_putTable]
   rfl
+
+/-- with no other transaction in progress nobody else holds a row -/
+theorem exec_heldByOther_solo (s : St) (hsolo : ∀ x ∈ s.w.active, x = s.xid) (r : Ver) :
+    (heldByOther r).exec s = (.ok none, s) := by
+  have h : ∀ x, ¬((¬x = 0 ∧ ¬x = s.xid) ∧ x ∈ s.w.active) := by
+    intro x ⟨⟨_, h2⟩, h3⟩
+    exact h2 (hsolo x h3)
+  simp [heldByOther, exec_bind, h]
 
 @[simp] theorem lockRow_visible (lv lv' : View) (xid cid rid : Nat) (r : Ver) :
     (lockRow lv xid cid rid r).visible lv' = r.visible lv' := by
